@@ -25,8 +25,10 @@ type Ctx struct {
 	Tier string
 	src  *tmpl.Source
 	// the interpretation of package main, once per run
-	cliDone  bool
-	cliPaths []*cliPath
+	cliDone bool
+	// namingIdentOnly: of the default-name table only "the name is an identifier" is an obligation (C01)
+	namingIdentOnly bool
+	cliPaths        []*cliPath
 }
 
 func (c *Ctx) Source() (*tmpl.Source, error) {
